@@ -1611,6 +1611,10 @@ def preprocess_arg(arg: ColExpr, table: Table, *, agg_is_window: bool = True) ->
             return table[expr.name]
 
         new = copy.copy(expr)
+        if isinstance(expr, Col) and expr._uuid in table._cache.cols:
+            # a union or a subquery may have changed the type of the column since
+            # the reference was taken
+            new._dtype = table._cache.cols[expr._uuid]._dtype
         if (
             agg_is_window
             and isinstance(expr, ColFn)
